@@ -976,9 +976,16 @@ pub fn oracle_sampled(c: &Case, n_tapes: usize, max_nodes: usize) -> Outcome {
     // outside fraction is >= 10 % AND >= 10 x the calibrated same-assignment rate, and only if the
     // alarm repeats on two further independent sample sets.
     let mut rel_bits = 0usize;
-    {
+    // twice: on the whole view (messages, output, the observer's own mask values) and on the
+    // messages and output alone (a much smaller vector, which fits the sample budget when the
+    // whole view does not)
+    for with_own in [true, false] {
         let join = |v: &Vec<Vec<u8>>, o: &Vec<Vec<u8>>| -> Vec<Vec<u8>> {
-            v.iter().zip(o.iter()).map(|(x, y)| { let mut z = x.clone(); z.extend_from_slice(y); z }).collect()
+            if with_own {
+                v.iter().zip(o.iter()).map(|(x, y)| { let mut z = x.clone(); z.extend_from_slice(y); z }).collect()
+            } else {
+                v.clone()
+            }
         };
         let fa = join(&va, &own_a);
         let fb = join(&vb, &own_b);
@@ -996,7 +1003,7 @@ pub fn oracle_sampled(c: &Case, n_tapes: usize, max_nodes: usize) -> Outcome {
         let d = fa[0].len() * 8;
         let half = fa.len().min(fb.len()) / 2;
         if fa.iter().chain(fb.iter()).all(|x| x.len() * 8 == d) && d + 128 <= half {
-            rel_bits = d;
+            rel_bits = rel_bits.max(d);
             let alarm = |fa: &Vec<Vec<u8>>, fb: &Vec<Vec<u8>>| -> Option<(String, usize, usize, usize)> {
                 for (name, x, y) in [("A", fa, fb), ("B", fb, fa)] {
                     let span = Gf2Span::new(&x[..half], d);
@@ -1042,6 +1049,7 @@ pub fn oracle_sampled(c: &Case, n_tapes: usize, max_nodes: usize) -> Outcome {
                 }
             }
         }
+    
     }
     let cap = len.min(96);
     // byte marginals
